@@ -35,6 +35,7 @@ type vpTransport struct {
 	stallWrites bool
 	drainFails  bool
 	corrupted   int
+	isWS        bool // handed out by the NewWS stub: one ReadPacket = one websocket message
 }
 
 func (t *vpTransport) ReadPacket() (int, []byte, error) {
@@ -55,6 +56,9 @@ func (t *vpTransport) ReadPacket() (int, []byte, error) {
 	}
 	p := t.in[t.pos]
 	t.pos++
+	if t.isWS && vpWSReadLimit > 0 && int64(len(p)) > vpWSReadLimit {
+		return 0, []byte{0, 0}, errors.New("vp: websocket: read limit exceeded")
+	}
 	return len(p), p, nil
 }
 
